@@ -192,7 +192,11 @@ fn geometric(mesh: &Mesh, oth: &[Mesh], f: usize, crit: &Crit) -> Option<bool> {
     let n = tri_normal(&a, &b, &c);
     match crit {
         Crit::Facing(d, ang) => {
-            let n = n?;
+            // a face without area has no normal and faces nothing
+            let n = match n {
+                Some(n) => n,
+                None => return Some(false),
+            };
             let dv = Vector3::new(d[0], d[1], d[2]);
             let x = n.angle(&dv);
             if (x - ang).abs() < 1e-9 {
